@@ -131,7 +131,7 @@ pub fn check_pair_with(out: &mut Out, src: &str, c0: &Ctx, ctx_desc: String, reu
             return;
         },
     };
-    let base_imm = match guard(|| evalexpr::eval_with_context(src, c0)) {
+    let base_imm = match guard(|| evalexpr::eval_with_context(src, &c0.clone())) {
         Ok(r) => r,
         Err(p) => {
             out.violation("panic", src.to_string(), "Ok or Err".into(), api::panic_text(&p));
@@ -186,6 +186,8 @@ pub fn check_pair_with(out: &mut Out, src: &str, c0: &Ctx, ctx_desc: String, reu
         ck.expect("eval_with_context vs build_operator_tree error", &want, Ok(base_imm.clone()));
         ck.expect("eval vs build_operator_tree error", &want, Ok(base_free.clone()));
     }
+    // (every read-only call gets a clone of the context as well: a user function may keep state of its own behind a
+    // shared reference, and every entry point is to start from the same state)
     // ---- string level
     ck.expect("eval", &base_free, guard(|| evalexpr::eval(src)));
     typed!(ck, "eval_string", proj_string, &base_free, evalexpr::eval_string(src));
@@ -195,13 +197,13 @@ pub fn check_pair_with(out: &mut Out, src: &str, c0: &Ctx, ctx_desc: String, reu
     typed!(ck, "eval_boolean", proj_boolean, &base_free, evalexpr::eval_boolean(src));
     typed!(ck, "eval_tuple", proj_tuple, &base_free, evalexpr::eval_tuple(src));
     typed!(ck, "eval_empty", proj_empty, &base_free, evalexpr::eval_empty(src));
-    typed!(ck, "eval_string_with_context", proj_string, &base_imm, evalexpr::eval_string_with_context(src, c0));
-    typed!(ck, "eval_int_with_context", proj_int, &base_imm, evalexpr::eval_int_with_context(src, c0));
-    typed!(ck, "eval_float_with_context", proj_float, &base_imm, evalexpr::eval_float_with_context(src, c0));
-    typed!(ck, "eval_number_with_context", proj_number, &base_imm, evalexpr::eval_number_with_context(src, c0));
-    typed!(ck, "eval_boolean_with_context", proj_boolean, &base_imm, evalexpr::eval_boolean_with_context(src, c0));
-    typed!(ck, "eval_tuple_with_context", proj_tuple, &base_imm, evalexpr::eval_tuple_with_context(src, c0));
-    typed!(ck, "eval_empty_with_context", proj_empty, &base_imm, evalexpr::eval_empty_with_context(src, c0));
+    typed!(ck, "eval_string_with_context", proj_string, &base_imm, evalexpr::eval_string_with_context(src, &c0.clone()));
+    typed!(ck, "eval_int_with_context", proj_int, &base_imm, evalexpr::eval_int_with_context(src, &c0.clone()));
+    typed!(ck, "eval_float_with_context", proj_float, &base_imm, evalexpr::eval_float_with_context(src, &c0.clone()));
+    typed!(ck, "eval_number_with_context", proj_number, &base_imm, evalexpr::eval_number_with_context(src, &c0.clone()));
+    typed!(ck, "eval_boolean_with_context", proj_boolean, &base_imm, evalexpr::eval_boolean_with_context(src, &c0.clone()));
+    typed!(ck, "eval_tuple_with_context", proj_tuple, &base_imm, evalexpr::eval_tuple_with_context(src, &c0.clone()));
+    typed!(ck, "eval_empty_with_context", proj_empty, &base_imm, evalexpr::eval_empty_with_context(src, &c0.clone()));
     macro_rules! typed_mut {
         ($name:expr, $proj:ident, $f:path) => {{
             let mut c = c0.clone();
@@ -228,14 +230,14 @@ pub fn check_pair_with(out: &mut Out, src: &str, c0: &Ctx, ctx_desc: String, reu
         typed!(ck, "Node::eval_boolean", proj_boolean, &base_free, t.eval_boolean());
         typed!(ck, "Node::eval_tuple", proj_tuple, &base_free, t.eval_tuple());
         typed!(ck, "Node::eval_empty", proj_empty, &base_free, t.eval_empty());
-        ck.expect("Node::eval_with_context", &base_imm, guard(|| t.eval_with_context(c0)));
-        typed!(ck, "Node::eval_string_with_context", proj_string, &base_imm, t.eval_string_with_context(c0));
-        typed!(ck, "Node::eval_int_with_context", proj_int, &base_imm, t.eval_int_with_context(c0));
-        typed!(ck, "Node::eval_float_with_context", proj_float, &base_imm, t.eval_float_with_context(c0));
-        typed!(ck, "Node::eval_number_with_context", proj_number, &base_imm, t.eval_number_with_context(c0));
-        typed!(ck, "Node::eval_boolean_with_context", proj_boolean, &base_imm, t.eval_boolean_with_context(c0));
-        typed!(ck, "Node::eval_tuple_with_context", proj_tuple, &base_imm, t.eval_tuple_with_context(c0));
-        typed!(ck, "Node::eval_empty_with_context", proj_empty, &base_imm, t.eval_empty_with_context(c0));
+        ck.expect("Node::eval_with_context", &base_imm, guard(|| t.eval_with_context(&c0.clone())));
+        typed!(ck, "Node::eval_string_with_context", proj_string, &base_imm, t.eval_string_with_context(&c0.clone()));
+        typed!(ck, "Node::eval_int_with_context", proj_int, &base_imm, t.eval_int_with_context(&c0.clone()));
+        typed!(ck, "Node::eval_float_with_context", proj_float, &base_imm, t.eval_float_with_context(&c0.clone()));
+        typed!(ck, "Node::eval_number_with_context", proj_number, &base_imm, t.eval_number_with_context(&c0.clone()));
+        typed!(ck, "Node::eval_boolean_with_context", proj_boolean, &base_imm, t.eval_boolean_with_context(&c0.clone()));
+        typed!(ck, "Node::eval_tuple_with_context", proj_tuple, &base_imm, t.eval_tuple_with_context(&c0.clone()));
+        typed!(ck, "Node::eval_empty_with_context", proj_empty, &base_imm, t.eval_empty_with_context(&c0.clone()));
         macro_rules! tree_mut {
             ($name:expr, $proj:ident, $m:ident) => {{
                 let mut c = c0.clone();
@@ -263,20 +265,20 @@ pub fn check_pair_with(out: &mut Out, src: &str, c0: &Ctx, ctx_desc: String, reu
         let inner: Vec<&Node> = t.iter().collect();
         let stride = (inner.len() / 4).max(1);
         for node in inner.iter().step_by(stride).take(4) {
-            let base: R<Value> = match guard(|| node.eval_with_context(c0)) {
+            let base: R<Value> = match guard(|| node.eval_with_context(&c0.clone())) {
                 Ok(b) => b,
                 Err(p) => {
                     ck.out.violation("panic", src.to_string(), "Ok or Err".into(), api::panic_text(&p));
                     break;
                 },
             };
-            typed!(ck, "inner node: Node::eval_string_with_context", proj_string, &base, node.eval_string_with_context(c0));
-            typed!(ck, "inner node: Node::eval_int_with_context", proj_int, &base, node.eval_int_with_context(c0));
-            typed!(ck, "inner node: Node::eval_float_with_context", proj_float, &base, node.eval_float_with_context(c0));
-            typed!(ck, "inner node: Node::eval_number_with_context", proj_number, &base, node.eval_number_with_context(c0));
-            typed!(ck, "inner node: Node::eval_boolean_with_context", proj_boolean, &base, node.eval_boolean_with_context(c0));
-            typed!(ck, "inner node: Node::eval_tuple_with_context", proj_tuple, &base, node.eval_tuple_with_context(c0));
-            typed!(ck, "inner node: Node::eval_empty_with_context", proj_empty, &base, node.eval_empty_with_context(c0));
+            typed!(ck, "inner node: Node::eval_string_with_context", proj_string, &base, node.eval_string_with_context(&c0.clone()));
+            typed!(ck, "inner node: Node::eval_int_with_context", proj_int, &base, node.eval_int_with_context(&c0.clone()));
+            typed!(ck, "inner node: Node::eval_float_with_context", proj_float, &base, node.eval_float_with_context(&c0.clone()));
+            typed!(ck, "inner node: Node::eval_number_with_context", proj_number, &base, node.eval_number_with_context(&c0.clone()));
+            typed!(ck, "inner node: Node::eval_boolean_with_context", proj_boolean, &base, node.eval_boolean_with_context(&c0.clone()));
+            typed!(ck, "inner node: Node::eval_tuple_with_context", proj_tuple, &base, node.eval_tuple_with_context(&c0.clone()));
+            typed!(ck, "inner node: Node::eval_empty_with_context", proj_empty, &base, node.eval_empty_with_context(&c0.clone()));
             let mut cb = c0.clone();
             let base_m: R<Value> = match guard(|| node.eval_with_context_mut(&mut cb)) {
                 Ok(b) => b,
@@ -386,6 +388,8 @@ impl Phase for Pairs {
                     // assignment targets that are not identifiers in the source text
                     "\"a\" = 5; a * 2", "\"x\" = 1; x", "(\"a\") = 2; a", "\"x\" += 1", "\"a\" = 5", "\"a b\" = 1", "str::from(\"x\") = 4; x", "(x) = 3; x",
                     // user functions that re-enter the library, some of them more than 64 levels deep
+                    "tick(); seen = true; tick() == 2", "tick() + tick() * 10", "x = tick(); tick()", "tick() == 1", "(tick(), tick(), tick())", "tick(); 1 / 0", "if(tick() == 1, tick(), tick())",
+                    "if(1 < 2, \"small\", (1 / 0; \"big\"))", "if(true, 1, y = 2)", "if(false, x = 1, 2); x",
                     "deep(70)", "deep(3) + deep(65)", "deep(80) == 80", "nest(1)", "deep(81)", "len(\"a\r\nb\")", "\"l1\r\nl2\" + \"\r\""])
                     .to_string()
             },
@@ -402,7 +406,9 @@ impl Phase for Pairs {
                     _ => format!("{}.{}", r.below(100), r.below(100)),
                 };
                 let sign = *r.pick(&["", "", "-", "+", "- ", "--", "!", "+ "]);
-                let pre = *r.pick(&["", "", " ", "\t", "\n"]);
+                // (also as the right-hand side of a one-statement assignment, and the words that are no numbers)
+                let body = if r.chance(1, 8) { (*r.pick(&["inf", "nan", "infinity", "NaN", "Inf", "1e999", "0x", "1e", "e1"])).to_string() } else { body };
+                let pre = *r.pick(&["", "", " ", "\t", "\n", "x = ", "x=", "a = ", "x2 += "]);
                 let post = *r.pick(&["", "", " ", "\n", ";", " // c"]);
                 format!("{}{}{}{}", pre, sign, body, post)
             },
@@ -424,6 +430,8 @@ impl Phase for Pairs {
         let model = random_model(r);
         let log = observe::new_log();
         let mut c0 = api::ctx_from_model(&model, &log);
+        // a function with state of its own (every entry point starts from a clone of this context, state included)
+        observe::register_counter(&mut c0, "tick");
         let mut extra = String::new();
         if r.chance(1, 16) {
             // contexts accept any string as a name: a variable named like the whole source text (or its trimmed form)
